@@ -457,6 +457,10 @@ def any_task(t, res):
 def run(ctx):
     tasks, cov = plan(ctx.tier)
     ctx.pmap(MOD, "any_task", [dict(fn=fn, arg=arg) for fn, arg in tasks])
+    # the small exhaustive spaces again in interpreters started with other hash seeds (iteration order of sets of strings)
+    hs_tasks = [dict(fn="graph_task", arg=dict(shape=[r, c], bits=list(range(R.n_graphs(r, c))), simple=True)) for (r, c) in [(1, 3), (3, 1), (2, 2)]]
+    for hs in (("4", "7", "123") if ctx.quick else ("1", "2", "3", "4", "5", "6", "7", "123", "4242")):
+        ctx.pmap(MOD, "any_task", hs_tasks, hashseed=hs)
     groups = [[(2, 3), (3, 2)], [(1, 4), (4, 1), (2, 2)], [(1, 3), (3, 1)]]
     ctx.pmap(MOD, "any_task", [dict(fn="mixed_task", arg=dict(group=g, order=o)) for g in groups for o in ("interleaved", "reversed")], fresh=True)
     ctx.coverage.update(bounds=cov, mixed_sequences=dict(groups=[[list(x) for x in g] for g in groups], orders=["interleaved", "reversed"],
